@@ -51,7 +51,7 @@ Print Assumptions C05_rmb_emits_zeros.
    is validated by the correspondence grid, the list theorem is not stated. *)
 Theorem C05_fcb_single_value :
   forall i s v p,
-    text_eqb (mnem i) FCB_t = true -> v_is_multi v = false -> v <> VPyNone ->
+    text_eqb (mnem i) FCB_t = true -> v_is_numeric v = true ->
     translate_operand (OPseudo s v) i = Ok p ->
     (-128 <= value_number v <= 255)%Z /\ cp_size p = 1 /\ emit_value (cp_op p) = Ok [] /\ emit_value (cp_post p) = Ok [] /\
     emit_value (cp_add p) = Ok [Z.to_N (value_number v mod 256)].
@@ -60,7 +60,7 @@ Print Assumptions C05_fcb_single_value.
 
 Theorem C05_fdb_single_value :
   forall i s v p,
-    text_eqb (mnem i) FCB_t = false -> text_eqb (mnem i) FDB_t = true -> v_is_multi v = false -> v <> VPyNone ->
+    text_eqb (mnem i) FCB_t = false -> text_eqb (mnem i) FDB_t = true -> v_is_numeric v = true ->
     translate_operand (OPseudo s v) i = Ok p ->
     (-32768 <= value_number v <= 65535)%Z /\ cp_size p = 2 /\ emit_value (cp_op p) = Ok [] /\ emit_value (cp_post p) = Ok [] /\
     emit_value (cp_add p) = Ok [Z.to_N ((value_number v mod 65536) / 256); Z.to_N (value_number v mod 256)].
@@ -69,7 +69,7 @@ Print Assumptions C05_fdb_single_value.
 
 Theorem C05_fcb_out_of_range_rejected :
   forall i s v,
-    text_eqb (mnem i) FCB_t = true -> v_is_multi v = false -> v <> VPyNone ->
+    text_eqb (mnem i) FCB_t = true -> v_is_numeric v = true ->
     (256 <= value_number v \/ value_number v < -128)%Z -> translate_operand (OPseudo s v) i = Diag 21.
 Proof. exact fcb_out_of_range_rejected. Qed.
 Print Assumptions C05_fcb_out_of_range_rejected.
@@ -88,7 +88,7 @@ Definition t (s : String.string) : text := text_of_string s.
 Local Open Scope string_scope.
 
 (* non-vacuity, through the whole assembler: repeated spaces and ';' inside the string, bare END, negative
-   values, an out-of-range value rejected; symbols in data are the known finding symbol_in_data *)
+   values, an out-of-range value rejected; a symbol as the element emits its value (repair F39) *)
 Example C05_nonvacuous :
   (exists r, assemble [] [t " FCC /A;  B/ trailing
 "; t " FCB -1
@@ -100,5 +100,5 @@ Example C05_nonvacuous :
 "] = Diag 2 /\
   (exists r, assemble [] [t "SYM EQU $34
 "; t " FCB SYM
-"] = Ok r /\ r_image r = [0]%N).
+"] = Ok r /\ r_image r = [52]%N).
 Proof. split; [eexists; split; vm_compute; reflexivity|]. split; [vm_compute; reflexivity | eexists; split; vm_compute; reflexivity]. Qed.
